@@ -141,7 +141,7 @@ D = 4  # divisions per measure (4/4, divs 1)
 
 
 def build_repeat_part(n, repeats=(), endings=(), dacapo=None, fine=None, tie=None, slur=None, divs_change=None, ts_change=None,
-                      segno=None, dalsegno=None, tocoda=None, coda=None):
+                      segno=None, dalsegno=None, tocoda=None, coda=None, grace_chain=None):
     """n measures, each with one whole note of pitch 60+i (id n<i>); marks at measure boundaries"""
     sc = _sc()
     part = sc.Part("P", quarter_duration=1)
@@ -178,6 +178,16 @@ def build_repeat_part(n, repeats=(), endings=(), dacapo=None, fine=None, tie=Non
     if slur is not None:
         a, b = notes[slur[0]], notes[slur[1]]
         part.add(sc.Slur(a, b), a.start.t, b.end.t)
+    if grace_chain is not None:
+        # a run of three grace notes before the note of that measure
+        main = notes[grace_chain]
+        gs = [sc.GraceNote("grace", step="ABC"[k], octave=5, voice=1, staff=1, id="g%d_%d" % (grace_chain, k)) for k in range(3)]
+        for g in gs:
+            part.add(g, main.start.t, main.start.t)
+        for x, y in zip(gs, gs[1:] + [main]):
+            x.grace_next = y
+            if isinstance(y, sc.GraceNote):
+                y.grace_prev = x
     return part
 
 
@@ -267,6 +277,7 @@ def grammar(tier):
         ("slur_inside_repeat", dict(n=3, repeats=[(0, 1)], slur=(0, 1))),
         ("ts_change_inside_repeat", dict(n=4, repeats=[(1, 2)], ts_change=2)),
         ("slur_across_boundary", dict(n=4, repeats=[(1, 2)], slur=(0, 2))),
+        ("grace_run_inside_repeat", dict(n=3, repeats=[(0, 1)], grace_chain=1)),
     ]
     if tier == "thorough":
         cases += [("three_repeats", dict(n=6, repeats=[(0, 0), (2, 3), (5, 5)])),
@@ -365,14 +376,15 @@ def _score_inputs(b):
     sc = _sc()
     from gen import scores as G
     for name, kw in (("simple_repeat", dict(n=3, repeats=[(0, 1)])), ("volta_1_2", dict(n=4, repeats=[(0, 1)], endings=[("1", 1, 1), ("2", 2, 2)]))):
-        for fn_name in ("unfold_part_maximal", "unfold_part_minimal"):
-            case = {"shape": name, "argument": "Score of two parts", "function": fn_name}
+        for fn_name, kwargs in (("unfold_part_maximal", {}), ("unfold_part_minimal", {}), ("unfold_part_maximal", {"update_ids": True, "ignore_leaps": False}),
+                                ("unfold_part_maximal", {"update_ids": False, "ignore_leaps": True})):
+            case = {"shape": name, "argument": "Score of two parts", "function": fn_name, "options": kwargs}
             pa, pb = build_repeat_part(**kw), build_repeat_part(**kw)
             pb.id = "Q"
             for nt in pb.iter_all(sc.Note):
                 nt.octave -= 2
                 nt.id = "q" + nt.id
-            fn = getattr(sc, fn_name)
+            fn = (lambda f_, k_: (lambda x: f_(x, **k_)))(getattr(sc, fn_name), kwargs)
             alone = [fn(build_repeat_part(**kw)), None]
             pb2 = build_repeat_part(**kw)
             for nt in pb2.iter_all(sc.Note):
@@ -384,7 +396,7 @@ def _score_inputs(b):
             if not ok:
                 continue
             parts = list(res.parts) if hasattr(res, "parts") else list(res)
-            sig = lambda p: [(x.start.t, x.end.t, x.step, x.octave) for x in sorted(p.iter_all(sc.Note), key=lambda x: (x.start.t, x.octave))]
+            sig = lambda p: [(x.start.t, x.end.t, x.step, x.octave, x.id) for x in sorted(p.iter_all(sc.Note), key=lambda x: (x.start.t, x.octave))]
             b.case("unfold/each_part_of_a_score_is_unfolded_from_its_own_notes", len(parts) == 2 and [sig(p) for p in parts] == [sig(a) for a in alone], case,
                    "parts of the unfolded score hold %r, the parts unfolded alone %r" % ([sig(p)[:3] for p in parts], [sig(a)[:3] for a in alone]))
 
@@ -459,8 +471,10 @@ def _check_copy(b, case, orig, un, want, upd, nontriv):
     # reference may point, not that a reference leaving the segment survives; there an empty (None) end is accepted, a foreign one is not
     crossing = bool(case.get("range_crosses_a_segment_boundary"))
     ok, what = True, ""
+    # (the attribute names are listed here, not taken from the objects' own registration of what is to be remapped)
+    REFS = ("tie_next", "tie_prev", "grace_next", "grace_prev", "slur_starts", "slur_stops", "tuplet_starts", "tuplet_stops", "_start_note", "_end_note")
     for o in un.iter_all():
-        for attr in getattr(o, "_ref_attrs", []):
+        for attr in sorted(set(getattr(o, "_ref_attrs", [])) | {a_ for a_ in REFS if hasattr(o, a_)}):
             v = getattr(o, attr, None)
             for x in (v if isinstance(v, list) else [v]):
                 if x is not None and id(x) not in inside:
@@ -473,6 +487,15 @@ def _check_copy(b, case, orig, un, want, upd, nontriv):
         for q in (nt.tie_next, nt.tie_prev):
             if q is not None and (q.tie_prev is not nt and q.tie_next is not nt):
                 ok, what = False, "one-sided tie link in the copy"
+    for g in un.iter_all(sc.GraceNote):
+        nx, pv = g.grace_next, g.grace_prev
+        if nx is None or id(nx) not in inside or (isinstance(nx, sc.GraceNote) and nx.grace_prev is not g):
+            ok, what = False, "grace note %s: the next note of its run is %r (outside the copy, or not linked back)" % (g.id, getattr(nx, "id", None))
+        if pv is not None and (id(pv) not in inside or pv.grace_next is not g):
+            ok, what = False, "grace note %s: the previous note of its run is %r (outside the copy, or not linked forward)" % (g.id, getattr(pv, "id", None))
+        orig_g = next((x for x in orig.iter_all(sc.GraceNote) if g.id.split("-")[0] == x.id), None)
+        if orig_g is not None and (orig_g.grace_prev is None) != (pv is None):
+            ok, what = False, "grace note %s: its original %s a previous grace note, the copy %s" % (g.id, "has" if orig_g.grace_prev is not None else "has not", "has" if pv is not None else "has not")
     # both directions of every slur / tuplet link: the copied range object names its notes, and those notes list that very object
     for rng, sa, ea in [(x, "slur_starts", "slur_stops") for x in un.iter_all(sc.Slur)] + [(x, "tuplet_starts", "tuplet_stops") for x in un.iter_all(sc.Tuplet)]:
         a, z = rng.start_note, rng.end_note
